@@ -1,11 +1,12 @@
 #!/bin/sh
-# usage: tools/mutant_test.sh <Cnn> <patch-file | -e 'sed-expr' file>   : run a check against a scratch copy with a change applied
+# usage: tools/mutant_test.sh <Cnn> <patch-file> | -R <patch-file> (reverse) | -e 'sed-expr' file
 set -e
 PROP=$1; shift
 S=/var/tmp/opverif-scratch-$$
 mkdir -p $S
 rsync -a --exclude frontend --exclude .git --exclude '__pycache__' /repo/ $S/
 if [ "$1" = "-e" ]; then sed -i "$2" "$S/$3"; diff -u "/repo/$3" "$S/$3" | head -20 || true
+elif [ "$1" = "-R" ]; then (cd $S && patch -R -p1 -s < "$2")
 else (cd $S && patch -p1 -s < "$1"); fi
-VERIF_REPO=$S /verif/check $PROP || echo "exit=$?"
+VERIF_OUT=$S/_verif_out VERIF_REPO=$S /verif/check $PROP || echo "exit=$?"
 rm -rf $S
